@@ -92,6 +92,8 @@ ghost struct G {
     is_generator: bool,
     // whether the code being compiled is at the top level of the script (`frame_stack.len() == 1`)
     top_level: bool,
+    // the number of the frame's first temporary register (V-frame: Frame::push_register hands out temporary_base + temporary_count)
+    temp_base: int,
 }
 
 struct Compiler { bytes: Vec<u8>, settings: CompilerSettings, g: Ghost<G> }
@@ -222,7 +224,7 @@ fn fixed_or_none(register: Option<u8>) -> (r: ResultRegister) ensures r == (matc
 HELPERS = r"""
     spec fn len(&self) -> int { self.bytes@.len() as int }
     // what no emission changes: the settings and the current compile frame's declared output type / generator flag
-    spec fn fixed(&self) -> (CompilerSettings, Option<AstIndex>, bool, bool) { (self.settings, self.g@.output_type, self.g@.is_generator, self.g@.top_level) }
+    spec fn fixed(&self) -> (CompilerSettings, Option<AstIndex>, bool, bool, int) { (self.settings, self.g@.output_type, self.g@.is_generator, self.g@.top_level, self.g@.temp_base) }
     // everything but the code, the trace and the patches
     spec fn same_frame_state(&self, o: &Compiler) -> bool { self.g@.regs == o.g@.regs && self.g@.spans =~= o.g@.spans && self.g@.loops =~= o.g@.loops && self.fixed() == o.fixed() }
 
@@ -315,7 +317,12 @@ HELPERS = r"""
     fn push_register(&mut self) -> (r: Result<u8>)
         ensures final(self).bytes == old(self).bytes, final(self).g@.trace == old(self).g@.trace, final(self).g@.patched == old(self).g@.patched, final(self).g@.spans == old(self).g@.spans, final(self).g@.loops == old(self).g@.loops, final(self).fixed() == old(self).fixed(),
             r is Ok ==> final(self).g@.regs == old(self).g@.regs + 1, r is Err ==> final(self).g@.regs == old(self).g@.regs,
+            // V-frame Frame::push_register: the next temporary, an error once number 255 would be reached
+            r matches Ok(x) ==> x as int == old(self).g@.temp_base + old(self).g@.regs && x < 255,
     { unimplemented!() }
+    // `self.frame().next_temporary_register()` (rule R5): the register the next push_register will hand out
+    #[verifier::external_body]
+    fn frame_next_temporary_register(&self) -> (r: u8) ensures r as int == self.g@.temp_base + self.g@.regs { unimplemented!() }
     #[verifier::external_body]
     fn pop_register(&mut self) -> (r: Result<u8>)
         ensures final(self).bytes == old(self).bytes, final(self).g@.trace == old(self).g@.trace, final(self).g@.patched == old(self).g@.patched, final(self).g@.spans == old(self).g@.spans, final(self).g@.loops == old(self).g@.loops, final(self).fixed() == old(self).fixed(),
@@ -407,6 +414,7 @@ HELPERS = r"""
         &&& post.g@.regs == pre.g@.regs + (if out.is_temporary { 1int } else { 0 })
         &&& Self::frame_post(pre, post, pre.len())
     }
+    // compile_call: PROVED in V-callseq against the layout it really emits; here one Call event stands for that layout
     #[verifier::external_body]
     fn compile_call(&mut self, function_register: u8, args: &[AstIndex], piped_arg: Option<u8>, instance: Option<u8>, ctx: CompileNodeContext) -> (r: Result<CompileNodeOutput>)
         requires old(self).g@.spans.len() > 0,
@@ -1074,7 +1082,7 @@ let ghost mut rs: Seq<AstIndex> = seq![rhs0]; let ghost mut operands: Seq<AstInd
         && final(self).g@.trace[old(self).g@.trace.len() as int].is_op(op, seq![result_register]) && final(self).g@.trace.last().is_var(id.0)
         && final(self).same_frame_state(old(self)) && final(self).g@.patched == old(self).g@.patched && final(self).len() >= old(self).len(),
 """),
-        Fn(F, "impl Compiler :: fn compile_piped_call", props=P01,
+        Fn(F, "impl Compiler :: fn compile_piped_call", props=("C01", "C02", "C06"),
            subst=[(r"self\.frame\(\)\.get_local_assigned_register\(", "self.frame_local_assigned_register(", None, "re")],
            before=[TAIL],
            spec=r"""
@@ -1124,7 +1132,7 @@ let ghost mut rs: Seq<AstIndex> = seq![rhs0]; let ghost mut operands: Seq<AstInd
         r is Ok ==> final(self).g@.trace.len() == old(self).g@.trace.len() + old(self).output_check_len() && prefix(old(self).g@.trace, final(self).g@.trace)
             && old(self).output_check_at(ctx.ast, final(self).g@.trace, old(self).g@.trace.len() as int, register, Some(match span { Some(s) => ctx.ast.at(s), None => old(self).g@.spans.last() })),   // @declared_output_type_asserted
 """),
-        Fn(F, "impl Compiler :: fn compile_yield", props=("C16", "C01", "C06"), before=[TAIL],
+        Fn(F, "impl Compiler :: fn compile_yield", props=("C16", "C01", "C02", "C06"), before=[TAIL],
            spec=r"""
     requires old(self).g@.spans.len() > 0,
     ensures
